@@ -226,6 +226,8 @@ func (ssn *Session) Reclaimable(reclaimer *api.TaskInfo, reclaimees []*api.TaskI
 	var victims []*api.TaskInfo
 
 	for _, tier := range ssn.Tiers {
+		// an empty intersection must stay empty for the rest of the tier
+		initialized := false
 		for _, plugin := range tier.Plugins {
 			if !isEnabled(plugin.EnabledReclaimable) {
 				continue
@@ -244,8 +246,9 @@ func (ssn *Session) Reclaimable(reclaimer *api.TaskInfo, reclaimees []*api.TaskI
 				break
 			}
 			// first iteration - initialize victims list
-			if victims == nil {
+			if !initialized {
 				victims = candidates
+				initialized = true
 			} else {
 				var intersection []*api.TaskInfo
 				// Get intersection of victims and candidates.
@@ -275,6 +278,8 @@ func (ssn *Session) Preemptable(preemptor *api.TaskInfo, preemptees []*api.TaskI
 	var victims []*api.TaskInfo
 
 	for _, tier := range ssn.Tiers {
+		// an empty intersection must stay empty for the rest of the tier
+		initialized := false
 		for _, plugin := range tier.Plugins {
 			if !isEnabled(plugin.EnabledPreemptable) {
 				continue
@@ -294,8 +299,9 @@ func (ssn *Session) Preemptable(preemptor *api.TaskInfo, preemptees []*api.TaskI
 				break
 			}
 			// first iteration - initialize victims list
-			if victims == nil {
+			if !initialized {
 				victims = candidates
+				initialized = true
 			} else {
 				var intersection []*api.TaskInfo
 				// Get intersection of victims and candidates.
@@ -326,6 +332,8 @@ func (ssn *Session) UnifiedEvictable(ctx *api.EvictionContext, candidates []*api
 	var victims []*api.TaskInfo
 
 	for _, tier := range ssn.Tiers {
+		// an empty intersection must stay empty for the rest of the tier
+		initialized := false
 		for _, plugin := range tier.Plugins {
 			fn, found := ssn.unifiedEvictableFns[plugin.Name]
 			if !found {
@@ -339,8 +347,9 @@ func (ssn *Session) UnifiedEvictable(ctx *api.EvictionContext, candidates []*api
 				victims = nil
 				break
 			}
-			if victims == nil {
+			if !initialized {
 				victims = result
+				initialized = true
 			} else {
 				var intersection []*api.TaskInfo
 				for _, v := range victims {
